@@ -20,6 +20,7 @@ import (
 	"sort"
 	"strconv"
 	"sync"
+	"time"
 
 	"github.com/pkg/errors"
 	"github.com/spikeekips/mitum/base"
@@ -151,6 +152,16 @@ func (c *ctl) write(op string, keys [][]byte, deletes int) error {
 
 	c.mu.Lock()
 	defer c.mu.Unlock()
+
+	// A batch of X's permanent merge that is not to land is held back until the ones that are to land have
+	// landed: its failure cancels the worker pool, and the batches not yet started would never be issued.
+	if c.armed && w.Kind == "pbatch" && c.seqCount >= c.nseq && !c.permAllowed[c.permIndex(w.first)] {
+		for i := 0; i < 500 && len(c.permLanded) < len(c.permAllowed); i++ {
+			c.mu.Unlock()
+			time.Sleep(time.Millisecond)
+			c.mu.Lock()
+		}
+	}
 
 	if !c.armed {
 		return nil
@@ -487,6 +498,9 @@ func (r *runner) run1(c *Case, res *Result) {
 	s.c.mu.Unlock()
 
 	res.Stopped = s.commit()
+
+	// the batches that were let through before the failing one may still be on their way to the storage
+	c19.WaitFrames("mergeTempDatabaseFromLeveldb")
 
 	s.c.mu.Lock()
 	s.c.dead = true
